@@ -408,9 +408,13 @@ func (c *Ctx) guardedBy(q, field, mu string, readsNeed bool) int {
 			switch ld.Type().Underlying().(type) {
 			case *types.Map, *types.Slice:
 				for _, r := range *ld.Referrers() {
-					switch r.(type) {
-					case *ssa.Lookup, *ssa.MapUpdate, *ssa.Range, *ssa.Call, *ssa.IndexAddr:
+					switch rr := r.(type) {
+					case *ssa.Lookup, *ssa.MapUpdate, *ssa.Range, *ssa.IndexAddr:
 						instrs = append(instrs, r)
+					case *ssa.Call:
+						if _, isB := rr.Call.Value.(*ssa.Builtin); isB {
+							instrs = append(instrs, r)
+						}
 					}
 				}
 			}
